@@ -170,6 +170,23 @@ def gen(rng, n, exhaustive_upto):
         k1 = rng.randint(1, 3)
         k2 = k1 + int((T + F(5, 2)) / dt) + int(T / dt) + 6
         cases.append(make_case(spec, {str(k1): [[f"F0L{a}", str(rng.choice(reps))]], str(k2): [[f"F0L{b}", str(rng.choice(reps))]]}, dt, f"same-section-pair-sw{sw}"))
+    for j in range(max(6, n // 8)):
+        # targeted: mixed feeder - some lines carry a disconnector at the upstream end, others none: sections of several lines
+        # (the breaker's own section among them) with further sections hanging off them; the fault lies on the head line of
+        # such a lower section (j even) or anywhere
+        nl = rng.randint(3, 6)
+        parent = [-1] + [rng.randint(0, i - 1) for i in range(1, nl)]
+        dt = rng.choice([F(1), F(1, 2), F(1, 4)]); T = rng.choice(Ts)
+        spec = feeder_spec([parent], 1, T)
+        fd = spec["feeders"][0]
+        for i in range(nl):
+            fd["sw"][i] = rng.choice([0, 1])
+        fd["sw"][1] = 0                                   # the breaker's section has at least two lines
+        heads = [i for i in range(2, nl) if fd["sw"][i] == 1]
+        if not heads:
+            fd["sw"][nl - 1] = 1; heads = [nl - 1]
+        fl = rng.choice(heads) if j % 2 == 0 else rng.randrange(nl)
+        cases.append(make_case(spec, {str(rng.randint(1, 3)): [[f"F0L{fl}", str(rng.choice(reps))]]}, dt, "mixed-upstream-or-none"))
     for _ in range(n):
         nfeed = rng.choice([1, 2, 2, 2])
         parents = []
